@@ -45,7 +45,8 @@ class HornerDomain:
         return TOP
 
     def at_head(self, ex, fr, bb, written):
-        if not fr.env.get("__looping") and fr.env.get("__lead") == 1:
+        if not fr.env.get("__looping") and fr.env.get("__lead") == 1 and ("iszero", "scalar", False) in fr.env.get("__pc", ()):
+            # (… and the loop is entered only where that `next()` was seen to be Some: a scalar of zero has no leading bit)
             # the leading bit — known to be set — was taken off the iterator before the loop: an accumulator that starts as the
             # base holds the multiple 1 = 2·0 + 1, what the first pass of the plain ladder would have produced
             for l in written:
